@@ -88,11 +88,14 @@ def o_sum(ctx):
     ctx.claim('first-is-unfolded-sum', eq(unf, eu))
     ctx.claim('second-is-folded-sum', eq(fol, ef))
     # profile rows are [ph, unfolded, folded] on the grid
-    rows = mol.get_charge_profile('AVR', grid=(0.0, 2.0, 1.0))
-    ctx.claim('profile-grid', len(rows) == 3 and [r[0] for r in rows] == [0.0, 1.0, 2.0])
-    for r in rows:
-        u, f = conf.calculate_charge(p, ph=r[0])
-        ctx.claim('profile-row-order', And(eq(r[1], u), eq(r[2], f)))
+    # grids whose step has one or several significant digits, starting on and off a multiple of the step
+    lo, step = ctx.choice('grid', [(0.0, 1.0), (2.0, 0.25), (0.5, 1.0), (0.0, 2.5), (1.0, 0.125), (3.0, 0.5)])
+    rows = mol.get_charge_profile('AVR', grid=(lo, lo + 2 * step, step))
+    ctx.claim('profile-grid', len(rows) == 3 and all(abs(r[0] - (lo + i * step)) < 1e-9 for i, r in enumerate(rows)),
+              detail='grid (%g, %g, %g): reported pH %r' % (lo, lo + 2 * step, step, [r[0] for r in rows]))
+    for i, r in enumerate(rows):
+        u, f = conf.calculate_charge(p, ph=lo + i * step)
+        ctx.claim('profile-row-is-the-charge-at-its-grid-pH', And(eq(r[1], u), eq(r[2], f)))
 
 
 def o_render(ctx):
